@@ -24,7 +24,15 @@ for sid in ids:
     try:
         for p in ps:
             t = time.time()
+            # evidence and replay files of a run against a seeded change are not evidence about /repo: keep the committed ones
+            ev = os.path.join(V, 'evidence', p + '.json')
+            ev_old = open(ev).read() if os.path.exists(ev) else None
+            rp_old = set(os.listdir(os.path.join(V, 'replays')))
             c = subprocess.run(['bin/check', p, '--tier', tier], cwd=V, capture_output=True, text=True)
+            if ev_old is not None:
+                open(ev, 'w').write(ev_old)
+            for f_ in set(os.listdir(os.path.join(V, 'replays'))) - rp_old:
+                os.unlink(os.path.join(V, 'replays', f_))
             viol = [l for l in c.stdout.split('\n') if l.startswith('VIOLATION')]
             keys = [l.strip() for l in c.stdout.split('\n') if l.strip().startswith('key:')]
             inc = [l for l in c.stdout.split('\n') if l.startswith('INCONCLUSIVE')]
